@@ -22,13 +22,18 @@ namespace Clipper2Lib { namespace verif {
   typedef void (*VertexFn)(int n, const long long* v);
   inline thread_local VertexFn vertex_fn = nullptr;
   // one call per ClipperOffset::OffsetPoint: v = { prev.x, prev.y, cur.x, cur.y, 1000 * norms[k], 1000 * norms[j]
-  // (x, y each, rounded), 1000 * group_delta, join type, end type (as currently in effect), 1000 * miter limit },
+  // (x, y each, rounded), 1000 * group_delta, join type, end type (as currently in effect), 1000 * miter limit,
+  // 1000 * arc tolerance (0 = default), 1000 * steps per radian in effect, 0 },
+  // and one call per end cap of an open path: the same record with prev = the end point's neighbour, cur = the end
+  // point, both normals = norms[end], last element 1 (start cap) or 2 (end cap)
   // pts = the points appended to the raw offset path by this call (x0, y0, x1, y1, ...)
   typedef void (*OffsetFn)(const long long* v, const long long* pts, int npts);
   inline thread_local OffsetFn offset_fn = nullptr;
   // one call per intersection processed by ProcessIntersectList (before the two edges are swapped in the AEL):
-  // v = { e1.bot.x, e1.bot.y, e1.top.x, e1.top.y, e2.bot.x, e2.bot.y, e2.top.x, e2.top.y, pt.x, pt.y, bottom y of the scanbeam }
+  // v = { e1.bot.x, e1.bot.y, e1.top.x, e1.top.y, e2.bot.x, e2.bot.y, e2.top.x, e2.top.y, pt.x, pt.y, bottom y of the scanbeam,
+  //       top y of the scanbeam }
   typedef void (*IntersectFn)(const long long* v);
+  inline thread_local long long scanbeam_top_y = 0;
   inline thread_local IntersectFn intersect_fn = nullptr;
 }}
 #define CLIPPER2_VERIF_YIELD(site) ::Clipper2Lib::verif::Yield(site)
